@@ -111,6 +111,48 @@ Corollary quintic_exact_after_any_history (pre : list (call (T := R))) c0 c1 c2 
   = Some (RInt (p5 c0 c1 c2 c3 c4 c5) a b).
 Proof. rewrite history_free. cbn [option_map run_call]. rewrite quintic_exact. reflexivity. Qed.
 
+(** ** A piecewise-defined function integrated piece by piece: consecutive calls whose limits abut (or are related in
+    any other way), each with its own polynomial.  A piece = six coefficients, two limits, epsilon, depth. *)
+Definition piece : Type := (R * R * R * R * R * R) * (R * R) * (R * Z).
+
+Definition piece_call (p : piece) : call (T := R) :=
+  let '((c0, c1, c2, c3, c4, c5), (a, b), (eps, depth)) := p in CInt (p5 c0 c1 c2 c3 c4 c5) a b eps depth.
+
+Definition piece_integral (p : piece) : R :=
+  let '((c0, c1, c2, c3, c4, c5), (a, b), _) := p in RInt (p5 c0 c1 c2 c3 c4 c5) a b.
+
+Theorem piecewise_quintic_exact (ps : list piece) :
+  List.map val (run_seq ROps tt (List.map piece_call ps)) = List.map piece_integral ps.
+Proof.
+  rewrite run_seq_map, !List.map_map. apply List.map_ext.
+  intros [[[[[[[c0 c1] c2] c3] c4] c5] [a b]] [eps depth]]. cbn [piece_call piece_integral run_call].
+  apply quintic_exact.
+Qed.
+
+(** non-vacuity / the shape the check drives: two different polynomials on [0,1] and [1,3], the second call starting
+    exactly where the first ended *)
+Example piecewise_two_pieces :
+  List.map val (run_seq ROps tt
+     [CInt (p5 1 0 0 0 0 0) 0 1 (1/10) 3; CInt (p5 0 2 0 0 0 0) 1 3 (1/10) 0]) = [1; 8].
+Proof.
+  change (List.map val (run_seq ROps tt (List.map piece_call
+            [((1, 0, 0, 0, 0, 0), (0, 1), (1/10, 3%Z)); ((0, 2, 0, 0, 0, 0), (1, 3), (1/10, 0%Z))])) = [1; 8]).
+  rewrite piecewise_quintic_exact. cbn [List.map piece_integral].
+  rewrite (is_RInt_unique _ _ _ _ (P5_is_RInt 1 0 0 0 0 0 0 1)), (is_RInt_unique _ _ _ _ (P5_is_RInt 0 2 0 0 0 0 1 3)).
+  unfold P5. f_equal; [|f_equal]; field.
+Qed.
+
+(** one polynomial integrated over two abutting pieces (any epsilons and depths, knots in any order): the two answers add
+    up to the integral over the union *)
+Theorem abutting_pieces_additive c0 c1 c2 c3 c4 c5 a b c eps1 eps2 d1 d2 :
+  val (run_call ROps (CInt (p5 c0 c1 c2 c3 c4 c5) a b eps1 d1)) + val (run_call ROps (CInt (p5 c0 c1 c2 c3 c4 c5) b c eps2 d2))
+  = RInt (p5 c0 c1 c2 c3 c4 c5) a c.
+Proof.
+  cbn [run_call]. rewrite !quintic_exact.
+  rewrite (is_RInt_unique _ _ _ _ (P5_is_RInt c0 c1 c2 c3 c4 c5 a b)), (is_RInt_unique _ _ _ _ (P5_is_RInt c0 c1 c2 c3 c4 c5 b c)),
+    (is_RInt_unique _ _ _ _ (P5_is_RInt c0 c1 c2 c3 c4 c5 a c)). ring.
+Qed.
+
 (** ** Re-entrant integrands: an integrand that itself calls the integrator (any of the four entry points, with
     integrand, limits, epsilon, depth depending on the outer abscissa) is an ordinary integrand for the outer call,
     and each inner call is the call made alone. *)
